@@ -28,7 +28,7 @@ func init() {
 				"profile, device and their nested settings types is read by the cache encoder and written by the decoder. R7: no " +
 				"encoder loop appends a view of a buffer that the next iteration overwrites.",
 			NotCovered: "that the maps equal a reference model after arbitrary synchronisation sequences; protobuf wire compatibility.",
-			Rules: map[string]string{"C14-R16": "ProfileStorage.Profiles hands on every received profile that converts (from the success edge of toInternal the next receive is reachable only through the appends to Profiles and Devices)", "C14-R15": "ProfileByHumanID answers only when the profile that contains the found device is the requested one (stale (profile, human ID) keys of moved devices)", "C14-RC": "class rules (error chains, shadowed results, character classes, crossed arguments, pool constructors, array pools, loop completeness, loop-carried buffers, replacing setters, complete clones, Grow arithmetic, pooled-buffer escape, sorted searches, fresh decode targets, per-iteration objects, whole-message copies, codec guards) over the packages this property rests on", "C14-R14": "profile decoders return a usable value, never a nil interface, on error-free paths (expected count zero; F16 was the one instance)", "C14-R13": "profile codecs: early default returns only for nil / disabled input; nil sub-messages only for nil input (shared class rules)", "C14-R12": "the periodic refresh worker that drives the profile sync (shared rule, see C13-R11)", "C14-R11": "weekly-schedule codecs: all seven weekdays converted, each from/to the field of its own day (constant-index stores or a full loop over a weekday-ordered list)", "C14-R1": "maps and generation only under mapsMu", "C14-R2": "clean-ups re-validated by generation; inserts bump it",
+			Rules: map[string]string{"C14-R18": "every clean-up goroutine of the profile database deletes from the index map that the lookup which starts it reads", "C14-R19": "the access settings a profile was built with are what Config() reports for the file cache, whether or not the profile has served a query in between (shared with C10-R6)", "C14-R17": "the backendpb converters read a field through a sub-message pointer only after a nil test of it (a panic in the synchronisation ends the periodic refresh loop)", "C14-R16": "ProfileStorage.Profiles hands on every received profile that converts (from the success edge of toInternal the next receive is reachable only through the appends to Profiles and Devices)", "C14-R15": "ProfileByHumanID answers only when the profile that contains the found device is the requested one (stale (profile, human ID) keys of moved devices)", "C14-RC": "class rules (error chains, shadowed results, character classes, crossed arguments, pool constructors, array pools, loop completeness, loop-carried buffers, replacing setters, complete clones, Grow arithmetic, pooled-buffer escape, sorted searches, fresh decode targets, per-iteration objects, whole-message copies, codec guards) over the packages this property rests on", "C14-R14": "profile decoders return a usable value, never a nil interface, on error-free paths (expected count zero; F16 was the one instance)", "C14-R13": "profile codecs: early default returns only for nil / disabled input; nil sub-messages only for nil input (shared class rules)", "C14-R12": "the periodic refresh worker that drives the profile sync (shared rule, see C13-R11)", "C14-R11": "weekly-schedule codecs: all seven weekdays converted, each from/to the field of its own day (constant-index stores or a full loop over a weekday-ordered list)", "C14-R1": "maps and generation only under mapsMu", "C14-R2": "clean-ups re-validated by generation; inserts bump it",
 				"C14-R3": "full sync clears all maps", "C14-R4": "lookup re-check decision trees", "C14-R5": "atomic cache write, version check",
 				"C14-R6": "codec field coverage", "C14-R7": "no loop-carried buffer aliasing in the encoder",
 				"C14-R8": "synchronisation protocol tables: Refresh (apply exactly what was fetched, advance the sync point, store the file cache on a full sync), fetchProfiles (a full sync asks from the zero time), needsFullSync, loadFileCache"},
@@ -42,6 +42,17 @@ const pdb = "profiledb.(*Default)."
 
 func runC14(c *an.Ctx) {
 	classSweep(c, "C14")
+	// ---- R18: a clean-up goroutine deletes from the index its lookup read; R19: a profile's access rules survive
+	// being consulted before the file cache is written (shared with C10-R6)
+	if n := c14CleanupSameIndex(c, "C14-R18"); n < 3 {
+		c.Und("C14-R18", "clean-up goroutines of the index maps", token.NoPos, "only %d `go db.remove…` statements found", n)
+	}
+	c.Floor("C14-R19", 1)
+	c.Borrow("C14-R19", runC10, func(o an.Obligation) bool { return o.Rule == "C10-R6" })
+	// ---- R17: the backend's messages are converted without assuming that a sub-message is present
+	if n := sharedSubmessageNilSafe(c, "C14-R17", "backendpb."); n < 3 {
+		c.Und("C14-R17", "sub-message accesses in backendpb", token.NoPos, "only %d field accesses through sub-message pointers found", n)
+	}
 	// ---- R16: every profile the backend sends and that converts reaches the database (deleted ones and ones
 	// without devices included: they are what removes a profile or detaches its last device)
 	c.Floor("C14-R16", 1)
@@ -1622,4 +1633,65 @@ func c14HumanIDProfile(c *an.Ctx) {
 	}
 	c.Check(ok, "C14-R15", key, fn.Pos(), "the found profile's ID is compared with the requested one before the lookup succeeds",
 		"the lookup succeeds without comparing the profile that contains the found device with the requested profile: after a device has been moved to another profile, its old (profile, human ID) key is answered with the other profile")
+}
+
+// c14CleanupSameIndex: a lookup that finds a stale entry in one of the index
+// maps starts a clean-up goroutine for it; the clean-up deletes from the very
+// map the stale entry was read from.  For every `go db.removeX(…)` in the
+// profile database, every map field that removeX deletes from must be one the
+// starting function looks a key up in; a clean-up that deletes from another
+// index removes a valid entry of that index (a key its device currently owns
+// answers not-found) and leaves the stale one in place.
+func c14CleanupSameIndex(c *an.Ctx, rule string) (examined int) {
+	mapField := func(v ssa.Value) string {
+		if ld, ok := v.(*ssa.UnOp); ok && ld.Op == token.MUL {
+			if typ, f, _, ok := an.FieldOf(ld.X); ok && strings.HasSuffix(typ, "profiledb.Default") {
+				return f
+			}
+		}
+		return ""
+	}
+	for _, fn := range c.Prog.FnsMatching("profiledb.(*Default).") {
+		if fn.Blocks == nil || c.IsTestFile(fn.Pos()) {
+			continue
+		}
+		read := map[string]bool{}
+		an.Instrs(fn, func(in ssa.Instruction) {
+			if lk, ok := in.(*ssa.Lookup); ok {
+				if f := mapField(lk.X); f != "" {
+					read[f] = true
+				}
+			}
+		})
+		for _, call := range an.Calls(fn) {
+			g, ok := call.(*ssa.Go)
+			if !ok {
+				continue
+			}
+			callee := an.StaticCallee(g)
+			if callee == nil || !strings.HasPrefix(callee.Name(), "remove") {
+				continue
+			}
+			examined++
+			c.Analysed(an.FnKey(fn))
+			var foreign []string
+			n := 0
+			for _, cl := range an.Calls(callee) {
+				cv, ok := cl.(*ssa.Call)
+				if !ok {
+					continue
+				}
+				if b, ok := cv.Call.Value.(*ssa.Builtin); ok && b.Name() == "delete" {
+					n++
+					if f := mapField(cv.Call.Args[0]); f == "" || !read[f] {
+						foreign = append(foreign, f+" ("+c.Pos(cv.Pos())+")")
+					}
+				}
+			}
+			c.Check(n > 0 && len(foreign) == 0, rule, fmt.Sprintf("%s cleans up through %s the index it read", an.FnKey(fn), callee.Name()), g.Pos(),
+				fmt.Sprintf("%d deletions, each from a map the lookup reads", n),
+				"the clean-up deletes from "+strings.Join(foreign, ", ")+", which the lookup that starts it does not read: a valid entry of another index is removed and the stale one stays")
+		}
+	}
+	return examined
 }
